@@ -37,7 +37,8 @@ OBLIGATIONS = {"outside:left": 100, "outside:right": 100, "outside:bottom": 100,
                "neighbours": 200, "rowcol": 200, "xyvalues": 20,
                "construction-path:1": 20, "construction-path:2": 20,
                "construction-path:3": 20, "construction-path:4": 20,
-               "construction-path:5": 20}
+               "construction-path:5": 20, "batch:single-value": 50,
+               "batch:origin-inside": 5}
 
 
 def G():
@@ -67,6 +68,14 @@ def gen_geom(rng, it):
     if it % 7 == 0:
         xll, yll = 112.0, -44.5          # AWAP-like
         csz = 0.05
+    if it % 7 == 3:
+        # grids placed around the origin: the point (0, 0) is inside some cell
+        xll = -csz * (ncols // 2 + float(rng.choice([0.5, 0.25, 0.0625])))
+        yll = -csz * (nrows // 2 + float(rng.choice([0.5, 0.25, 0.0625])))
+        if ncols // 2 + 0.5 > ncols:
+            xll = -csz * 0.5
+        if nrows // 2 + 0.5 > nrows:
+            yll = -csz * 0.5
     return nrows, ncols, xll, yll, csz
 
 
@@ -164,6 +173,21 @@ def run_geom_case(ctx, case):
     ctx.evaluated(njudged)
     ctx.check("coord2cell.inside", bad is None, "coord2cell|inside-footprint", case,
               lambda: {"x,y,got,expected,edge_dist": bad})
+    # ---- batches of one point / of identical points, incl. the origin itself
+    for px, py in ((0.0, 0.0), (float(pts[0, 0]), float(pts[0, 1]))):
+        ec, dist = g.locate(px, py)
+        if dist < 1e-9:
+            continue
+        for rep_ in (1, 3):
+            ctx.api("coord2cell")
+            ctx.tag("batch:single-value")
+            if px == 0.0 and py == 0.0 and ec >= 0:
+                ctx.tag("batch:origin-inside")
+            r1 = np.asarray(gr.coord2cell(np.array([[px, py]] * rep_)))
+            ctx.check("coord2cell.small-batch", r1.shape == (rep_,) and
+                      bool(np.all(r1 == ec)), "coord2cell|batch-of-identical-points", case,
+                      lambda: {"point": [px, py], "repeat": rep_, "got": r1.tolist(),
+                               "expected": ec})
     # ---- the same points / cell numbers in another memory layout or container
     # (np.array([x, y]).T is Fortran-ordered)
     prng = np.random.default_rng(digest(pts) % 2 ** 32)
